@@ -45,23 +45,6 @@ def strata_for(tier):
 
 
 # ---- harness plumbing -----------------------------------------------------------------------------
-def _make_roomy(n=33000):
-    """CPython >= 3.11 keeps interpreter frames on a per-thread data stack made of 16 KiB chunks; a chunk is
-    mmap'ed when a call does not fit and munmap'ed as soon as that call returns.  Inside a pool worker every CEL
-    evaluation happened to straddle a chunk boundary (one mmap/munmap pair per evaluation, ~1 ms each on this VM:
-    a measured 10x slow-down).  Calling the shard through a function whose frame has 33 000 (unused) locals makes
-    the interpreter allocate one 512 KiB chunk for it, and everything the shard calls then lives in the spare half.
-    Purely a speed measure: no effect on what is evaluated or observed."""
-    src = "def roomy(fn, task):\n    return fn(task)\n    " + " = ".join(f"_{i}" for i in range(n)) + " = None\n"
-    ns = {}
-    try:
-        exec(compile(src, "<c15-roomy-frame>", "exec"), ns)
-        return ns["roomy"]
-    except Exception:  # noqa  (any trouble: fall back to a plain call)
-        return lambda fn, task: fn(task)
-
-
-ROOMY = _make_roomy()
 KEEP_PER_SIG = 3
 
 
@@ -192,10 +175,6 @@ def coarse(desc):
     return desc.split(":", 1)[0].split("(", 1)[0].split("[", 1)[0]
 
 
-def doc_kind_label(doc):
-    return jsonref.kind(doc)
-
-
 def cel_key(k):
     return '"' + k.replace("\\", "\\\\").replace('"', '\\"') + '"'
 
@@ -212,7 +191,7 @@ def spellings(path):
                 a.append(("dot", f".{step}"))
             alts.append(a)
     for combo in itertools.product(*alts):
-        yield "doc" + "".join(t for _, t in combo), "-".join(kd for kd, _ in combo)
+        yield "doc" + "".join(t for _, t in combo), combo
 
 
 def key_class(k):
@@ -292,10 +271,6 @@ def encode(adapter, value, route):
 
 
 def conv_shard(task):
-    return ROOMY(_conv_shard, task)
-
-
-def _conv_shard(task):
     tier, sname, shape, lo, hi = task
     import celpy.adapter as adapter
 
@@ -305,8 +280,8 @@ def _conv_shard(task):
     for doc in st.docs(shape, lo, hi):
         n += 1
         conv_checks(part, doc, adapter, {})
-        if n == 1 and lo == 0:
-            part.sample({"check": "conversion", "stratum": sname, "shape": shape, "doc": doc}, limit=1)
+        if n == 1 and lo == 0 and shape in ("scalars", "small", "arr2"):
+            part.sample({"check": "conversion", "stratum": sname, "shape": shape, "first_doc": doc}, limit=1)
     part.space(f"docs:{sname}:conv", 0, n)
     return part
 
@@ -330,18 +305,28 @@ def nav_agrees(o, exp):
     return o[0] == "V" and o[1] == exp[1] and o[2] == exp[2]
 
 
-def nav_sig(rk, doc, path, steps, exp, o):
-    last = path[-1]
+def nav_blame(rk, doc, path, steps, adapter):
+    """Shortest prefix of this spelling that already misses its element (each prefix on a fresh environment):
+    (prefix length, its outcome).  The signature names that step, so one broken step kind gives one signature
+    however long the paths that contain it."""
+    for n in range(1, len(path) + 1):
+        text = "doc" + "".join(t for _, t in steps[:n])
+        o = celrun.Prog(rk, text).eval({"doc": adapter.json_to_cel(doc)})
+        if not nav_agrees(o, nav_expected(doc, path[:n])):
+            return n, o
+    return len(path), None
+
+
+def nav_sig(rk, path, steps, n, o):
+    last = path[n - 1]
     kc = key_class(last) if type(last) is str else "idx"
-    got = f"{exp[1]}->{o[1]}" if o[0] == "V" else outcome.label(o)
-    return f"nav:{rk}:{steps.split('-')[-1]}:{kc}:{got}"
+    got = "wrong-element" if o[0] == "V" else outcome.label(o)
+    if o[0] == "P" or (o[0] == "X" and o[1] != "evaluate"):  # failed before any document was seen: the key is irrelevant
+        return f"nav:{rk}:{steps[n - 1][0]}:{got}"
+    return f"nav:{rk}:{steps[n - 1][0]}:{kc}:{got}"
 
 
 def nav_shard(task):
-    return ROOMY(_nav_shard, task)
-
-
-def _nav_shard(task):
     tier, sname, shape, lo, hi, rk = task
     import celpy.adapter as adapter
 
@@ -379,10 +364,13 @@ def _nav_shard(task):
                     viol(part, "converted-element-differs", "nav:element-reached-but-converted-differently", wit,
                          f"runner {rk}: {text} over doc={doc!r} gives {outcome.short(o2)} = the library's conversion of the element, expected {outcome.short(exp)}")
                     continue
+                n, on = nav_blame(rk, doc, path, steps, adapter)
+                on = on or o2
                 kind = "error-instead-of-element" if o2[0] == "E" else ("wrong-element" if o2[0] == "V" else "other-exception")
-                viol(part, kind, nav_sig(rk, doc, path, steps, exp, o2), wit,
-                               f"runner {rk}: {text} over doc={doc!r}: expected {outcome.short(exp)}, got {outcome.short(o2)}")
-        if ndocs == 1 and lo == 0 and shape != "small":
+                viol(part, kind, nav_sig(rk, path, steps, n, on), wit,
+                     f"runner {rk}: {text} over doc={doc!r}: expected {outcome.short(exp)}, got {outcome.short(o2)}"
+                     + (f" (first step that misses: #{n} {steps[n - 1][1]} giving {outcome.short(on)})" if n < len(path) else ""))
+        if ndocs == 1 and lo == 0 and shape == "arr2":
             part.sample({"check": "nav", "runner": rk, "stratum": sname, "doc": doc, "paths": [t for p in jsonref.positions(doc) for t, _ in spellings(p)]}, limit=1)
     part.space(f"docs:{sname}:nav-{rk}", 0, ndocs)
     part.space(f"paths:{sname}:nav-{rk}", 0, ncases)
@@ -516,10 +504,6 @@ def check_bytes(part, ct, adapter, data, ctx):
 
 
 def enc_shard(task):
-    return ROOMY(_enc_shard, task)
-
-
-def _enc_shard(task):
     tier, what, lo, hi = task
     import celpy.adapter as adapter
     import celpy.celtypes as ct
@@ -611,7 +595,12 @@ def run(ctx):
             conv_tasks.append((ctx.tier, s.name, shape, lo, hi))
             if s.depth >= 1:
                 nav_tasks.append((ctx.tier, s.name, shape, lo, hi))
-    n_ts, n_du, n_by = len(instants(ctx.tier)), len(durations(ctx.tier)), sum(len(A_B) ** n for n in range(0, 5 if ctx.thorough else 4))
+    n_years, n_leap = (9999, 9999 // 4 - 9999 // 100 + 9999 // 400) if ctx.thorough else (len(T10_YEARS), len(LEAP_YEARS))
+    n_ts = (2 * n_years + n_leap) * len(OFFSETS_MIN) + 2 * len(OFFSETS_MIN) * 3      # whole-second instants + the UNSPEC fractional ones
+    n_du = len(durations(ctx.tier))                                                   # a set union: counted, not closed-form
+    n_by = sum(len(A_B) ** n for n in range(0, 5 if ctx.thorough else 4))
+    if n_ts != len(instants(ctx.tier)):
+        raise runner.HarnessError(f"instant alphabet has {len(instants(ctx.tier))} members, closed form says {n_ts}")
     enc_tasks = [(ctx.tier, what, lo, hi) for what, n in (("timestamp", n_ts), ("duration", n_du), ("bytes", n_by)) for lo, hi in runner.shards(n, 16)]
     ctx.run_shards(plain_shard, [("conv", t) for t in conv_tasks] + [("enc", t) for t in enc_tasks])
     # interpreter-kind and compiled-kind environments never share a process (DESIGN 2.6)
